@@ -18,6 +18,7 @@ import (
 	"time"
 
 	"pgregory.net/rapid"
+	"verifharness/model"
 )
 
 var (
@@ -274,8 +275,30 @@ func safeRun[C any](run func(C) *Result, c C) (res *Result) {
 	return run(c)
 }
 
-func execCase[C any](spec Spec[C], c C) (*Result, []byte) {
-	cj := caseJSON(c)
+// The case file carries, next to the property's own fields, the number of the case's "sparse leaf"
+// (model.SetSparse): which of the first leaves has a hash that is zero outside one byte range.
+func withSparse(cj []byte, p int) []byte {
+	if p == 0 || len(cj) < 2 || cj[0] != '{' {
+		return cj
+	}
+	if len(cj) == 2 {
+		return []byte(fmt.Sprintf(`{"_sparse":%d}`, p))
+	}
+	return append([]byte(fmt.Sprintf(`{"_sparse":%d,`, p)), cj[1:]...)
+}
+
+func sparseOf(cj []byte) int {
+	var e struct {
+		P int `json:"_sparse"`
+	}
+	json.Unmarshal(cj, &e)
+	return e.P
+}
+
+func execCase[C any](spec Spec[C], c C, sp int) (*Result, []byte) {
+	model.SetSparse(sp)
+	defer model.SetSparse(0)
+	cj := withSparse(caseJSON(c), sp)
 	rec.current.Store(&cj)
 	if *flagInflight != "" {
 		os.WriteFile(*flagInflight, cj, 0o644)
@@ -300,7 +323,7 @@ func runSpec[C any](t *testing.T, spec Spec[C]) {
 		if err := json.Unmarshal(b, &c); err != nil {
 			t.Fatalf("cannot decode replay file: %v", err)
 		}
-		res, cj := execCase(spec, c)
+		res, cj := execCase(spec, c, sparseOf(b))
 		for _, k := range res.Known {
 			fmt.Printf("REPLAY-KNOWN: %s\n", k)
 		}
@@ -327,8 +350,14 @@ func runSpec[C any](t *testing.T, spec Spec[C]) {
 		spec.Pre(t)
 	}
 	rapid.Check(t, func(rt *rapid.T) {
+		// one case in three has a sparse leaf; drawn first so that the generator sees the same hashes as Run
+		sp := rapid.IntRange(0, 3*model.SparseModes).Draw(rt, "sparse-leaf")
+		if sp > model.SparseModes {
+			sp = 0
+		}
+		model.SetSparse(sp)
 		c := spec.Gen(rt)
-		res, cj := execCase(spec, c)
+		res, cj := execCase(spec, c, sp)
 		if res.Err != nil {
 			lastMsg, lastCase = res.Err.Error(), cj
 			rt.Fatalf("%v", res.Err)
